@@ -326,7 +326,7 @@ def octcps(note):
 @scbuiltin.unop
 def cpsoct(freq):
     # return sc_log2(freq * (float32)0.0022727272727) + (float32)4.75;
-    return log2(freq * _ONE440TH + 4.75)
+    return log2(freq * _ONE440TH) + 4.75
 
 @scbuiltin.unop
 def ampdb(amp):
